@@ -414,6 +414,98 @@ fn check_tape(tape: &[u8], gates: &Gates, stats: &mut Stats, counting: bool) -> 
     }
 }
 
+/// Tight joints, written by hand: lexemes that touch without any blank between them (valid
+/// programs almost never have an address directly before a period, an operator directly after a
+/// comment ...).  The texts need not parse - semantic tokens are a matter of the lexer alone.
+/// piece classes: K keyword, T type keyword, W word operator, I identifier, N number, S string,
+/// P punctuation, O operator, A address, C comment, B blanks, L line break
+fn tight_docs() -> Vec<Vec<(&'static str, char)>> {
+    vec![
+        vec![("%IX1.0", 'A'), (".", 'P'), ("b", 'I')],
+        vec![("x", 'I'), (":=", 'O'), ("%MW1", 'A'), ("..", 'P'), ("5", 'N'), (";", 'P')],
+        vec![("a", 'I'), (".", 'P'), ("b", 'I'), (".", 'P'), ("c", 'I'), (":=", 'O'), ("1", 'N'), (";", 'P')],
+        vec![("x", 'I'), (":=", 'O'), ("-", 'O'), ("1", 'N'), ("+", 'O'), ("y", 'I'), (";", 'P')],
+        vec![("(*c*)", 'C'), ("x", 'I'), ("(*d*)", 'C'), ("y", 'I')],
+        vec![("a", 'I'), (":=", 'O'), ("b", 'I'), ("**", 'O'), ("c", 'I'), ("*", 'O'), ("d", 'I'), (";", 'P')],
+        vec![("x", 'I'), (":=", 'O'), ("y", 'I'), ("<=", 'O'), ("z", 'I'), ("<>", 'O'), ("w", 'I'), (">=", 'O'), ("v", 'I'), ("<", 'O'), ("u", 'I'), (">", 'O'), ("t", 'I'), ("=", 'O'), ("s", 'I'), (";", 'P')],
+        vec![("IF", 'K'), ("(", 'P'), ("x", 'I'), (")", 'P'), ("THEN", 'K'), (" ", 'B'), ("y", 'I'), (":=", 'O'), ("1", 'N'), (";", 'P'), ("END_IF", 'K'), (";", 'P')],
+        vec![("v", 'I'), (" ", 'B'), ("AT", 'K'), (" ", 'B'), ("%I*", 'A'), (":", 'P'), ("BOOL", 'T'), (";", 'P')],
+        vec![("x", 'I'), (":=", 'O'), ("16#FF", 'N'), (";", 'P'), ("y", 'I'), (":=", 'O'), ("2#1010", 'N'), (";", 'P')],
+        vec![("s", 'I'), (":=", 'O'), ("'a.b'", 'S'), (";", 'P')],
+        vec![("x", 'I'), (":=", 'O'), ("a", 'I'), ("&", 'O'), ("b", 'I'), (";", 'P')],
+        vec![("f", 'I'), ("(", 'P'), ("a", 'I'), (":=", 'O'), ("1", 'N'), (",", 'P'), ("b", 'I'), ("=>", 'O'), ("c", 'I'), (")", 'P'), (";", 'P')],
+        vec![("x", 'I'), (":=", 'O'), ("NOT", 'W'), (" ", 'B'), ("y", 'I'), (" ", 'B'), ("AND", 'W'), (" ", 'B'), ("z", 'I'), (" ", 'B'), ("OR", 'W'), (" ", 'B'), ("w", 'I'), (" ", 'B'), ("XOR", 'W'), (" ", 'B'), ("v", 'I'), (" ", 'B'), ("MOD", 'W'), (" ", 'B'), ("2", 'N'), (";", 'P')],
+        vec![("%QB10.20.30", 'A'), (".", 'P'), ("z", 'I')],
+        vec![("arr", 'I'), ("[", 'P'), ("1", 'N'), ("..", 'P'), ("2", 'N'), ("]", 'P')],
+        vec![("x", 'I'), (":=", 'O'), ("%MW1", 'A'), (".", 'P')],
+        vec![("x", 'I'), (":=", 'O'), ("%IX1.2", 'A'), (".", 'P'), ("y", 'I'), ("\r\n", 'L'), (".", 'P'), ("b", 'I')],
+        vec![("%mw7", 'A'), ("(*c*)", 'C'), ("%Qx0.1", 'A'), (",", 'P'), ("%M*", 'A'), (")", 'P')],
+        vec![("END_VAR", 'K'), (";", 'P'), ("VAR", 'K'), (";", 'P'), ("END_VAR", 'K'), ("(*x*)", 'C'), ("VAR_INPUT", 'K')],
+    ]
+}
+
+fn doc_of(spec: &[(&'static str, char)]) -> Doc {
+    use crate::lexeme::{Join, Piece};
+    let mut text = String::new();
+    let mut lexemes = vec![];
+    let mut pieces = vec![];
+    let (mut line, mut col) = (0usize, 0usize);
+    for (t, k) in spec {
+        let start = text.len();
+        text.push_str(t);
+        let class = match k {
+            'K' => Some(Class::Keyword),
+            'T' => Some(Class::TypeKw),
+            'W' => Some(Class::WordOp),
+            'I' => Some(Class::Ident),
+            'N' => Some(Class::Number),
+            'S' => Some(Class::Str),
+            'P' => Some(Class::Punct),
+            'O' => Some(Class::Op),
+            'A' => Some(Class::Address),
+            _ => None,
+        };
+        let (lexeme, trivia) = match class {
+            Some(c) => {
+                lexemes.push(Lexeme { text: t.to_string(), class: c, join: Join::Tight, mark: None });
+                (Some(lexemes.len() - 1), None)
+            }
+            None => (None, Some(match k {
+                'C' => TriviaKind::Comment,
+                'L' => TriviaKind::Newline,
+                _ => TriviaKind::Blank,
+            })),
+        };
+        pieces.push(Piece { start, end: text.len(), line, col_bytes: col, col_chars: col, col_utf16: col, lexeme, trivia });
+        if t.contains('\n') {
+            line += 1;
+            col = 0;
+        } else {
+            col += t.len();
+        }
+    }
+    Doc { text: text.clone(), lay: Layout { text, pieces }, lexemes }
+}
+
+fn run_tight_grid(rep: &mut Report) {
+    let docs = tight_docs();
+    let out = run_items(&docs, 8, |spec, stats| {
+        let doc = doc_of(spec);
+        let uri = "file:///w/tight.st";
+        let run = lsp_run(&[lsp_initialize(0), lsp_initialized(), lsp_did_open(uri, 1, &doc.text), lsp_semantic_tokens(json!(7), uri), lsp_shutdown(8), lsp_exit()]);
+        if run.timed_out {
+            stats.inconclusive += 1;
+            return Ok(());
+        }
+        stats.case(true, hash_str(&doc.text));
+        stats.class("tight-joint-grid");
+        let fail = |kind: &str, detail: String| Failure::new("tight-joints", kind, format!("{:?}: {}", doc.text, detail), json!({"text": doc.text}));
+        let resp = run.frames.iter().find(|f| f["id"] == 7 && f.get("method").is_none()).ok_or_else(|| fail("no-response", "no response to the semanticTokens request".into()))?;
+        judge_unit(&doc, &legend_of(&run.frames), &resp["result"], Unit::Utf16).map(|_| ()).map_err(|(k, d)| fail(&k, d))
+    });
+    rep.add(out);
+}
+
 pub fn run(ctx: &Ctx) -> i32 {
     let clock = Clock::start();
     let mut rep = Report::new(
@@ -421,7 +513,7 @@ pub fn run(ctx: &Ctx) -> i32 {
         ctx.tier,
         ctx.seed,
         "exploration",
-        "documents printed by the harness from the C01 generator in wild spelling (comments before tokens on the same line, multi-line comments, CRLF, mixed case; a separately counted non-ASCII class), opened and replaced through a history of 1..4 full-text versions (didChange, or didClose + didOpen with the version restarted) (optionally with another document open), then semanticTokens/full. The response is decoded under the LSP relative encoding (legend read from the initialize response): strictly increasing, non-overlapping, every range equals exactly one lexeme of the harness' lexeme table for the CURRENT text in UTF-16 units (while KF-C15-02 is known, a non-ASCII document may instead be consistent in bytes - one unit for the whole response), legend entry compatible with the lexeme class, every identifier / comment / address lexeme reported; a document with an unlexable character yields result null. Non-trivial: >= 3 lines with tokens and a comment followed by a token on the same line; distinct by document text.",
+        "documents printed by the harness from the C01 generator in wild spelling (comments before tokens on the same line, multi-line comments, CRLF, mixed case; a separately counted non-ASCII class), opened and replaced through a history of 1..4 full-text versions (didChange, or didClose + didOpen with the version restarted) (optionally with another document open), then semanticTokens/full. The response is decoded under the LSP relative encoding (legend read from the initialize response): strictly increasing, non-overlapping, every range equals exactly one lexeme of the harness' lexeme table for the CURRENT text in UTF-16 units (while KF-C15-02 is known, a non-ASCII document may instead be consistent in bytes - one unit for the whole response), legend entry compatible with the lexeme class, every identifier / comment / address / keyword / operator lexeme reported; 20 hand-written texts whose lexemes touch without blanks (an address before a period, operators after comments ...); a document with an unlexable character yields result null. Non-trivial: >= 3 lines with tokens and a comment followed by a token on the same line; distinct by document text.",
     );
     let gates = ctx.gates_for("C15");
     let off = gates.off_list();
@@ -431,10 +523,11 @@ pub fn run(ctx: &Ctx) -> i32 {
         check_tape(tape, &g, stats, counting)
     });
     rep.add(out);
+    run_tight_grid(&mut rep);
     rep.replay_witnesses(&ctx.findings, &|w| witness(w));
     rep.extra.insert("gates_off".into(), json!(off));
     rep.assumptions = vec![
-        "words the lexer cannot tell from identifiers (T, ms, N, INTERVAL ...) may be reported as variable or keyword; the range delimiter '..' may be reported as keyword; keywords that are not reported at all are not required".into(),
+        "words the lexer cannot tell from identifiers (T, ms, N, INTERVAL ...) may be reported as variable or keyword; the range delimiter '..' may be reported as keyword or not at all".into(),
         "form feed is not used as trivia".into(),
     ];
     rep.wall_s = clock.secs();
